@@ -319,6 +319,12 @@ def run(tier, seed):
             dict(type=NONE, iface=NONE, member=NONE, path=chars('/a/b'), ns=NONES, dest=NONE, arg0=chars('x'), arg0path=NONES)]
     sig_idx = [i for i, m in enumerate(msgs) if m['type'] == 'signal']
     pick = rng.sample(sig_idx, 5) + [i for i in sig_idx if msgs[i]['path'] == chars('/a/bc')][:1]
+    # ... and two signals that differ only in the destination: what is decided for one message says nothing about the
+    # next (a client connection hands only signals to its router, so the history machine routes signals)
+    base = msgs[pick[0]]
+    for key, other in (('dest', 'D' if base['dest'] == NONE else NONE),):
+        twin = [i for i, m in enumerate(msgs) if m[key] == other and all(m[k] == base[k] for k in m if k != key)]
+        pick += twin[:1]
     hmsgs = [msgs[i] for i in pick]
     hraw = [reals[i].rawMessage for i in pick]
     name = 'MC_Router_hist'
